@@ -110,9 +110,9 @@ func runC13(c *Ctx) {
 	reqT := c.P.Type("rules", "Request")
 	var poolGet *ssa.Function
 	if mr := c.P.Method("", "DNSEngine", "MatchRequest"); mr != nil {
-		eachInstr(mr, func(_ *ssa.BasicBlock, in ssa.Instruction) {
+		eachInstrG(c.P, mr, func(_ *ssa.BasicBlock, in ssa.Instruction) {
 			if ci, ok := in.(ssa.CallInstruction); ok {
-				if cal := ci.Common().StaticCallee(); cal != nil && c.P.IsLibFunc(cal) && cal.Signature.Results().Len() == 1 && typeStr(cal.Signature.Results().At(0).Type()) == "*rules.Request" {
+				if cal := ci.Common().StaticCallee(); cal != nil && c.P.IsLibFunc(cal) && !c.P.IsNewHelper(cal) && cal.Signature.Results().Len() == 1 && typeStr(cal.Signature.Results().At(0).Type()) == "*rules.Request" {
 					poolGet = cal
 				}
 			}
